@@ -58,6 +58,10 @@ def ev(t, LEN, n):
     if _is(t, "usize::checked_sub", "u32::checked_sub", "u64::checked_sub") and len(t[2]) == 2 and _const_only(t[2][1], LEN):
         v = ev(t[2][0], LEN, n) - ev(t[2][1], LEN, n)
         return v if v >= 0 else None
+    if isinstance(t, tuple) and len(t) == 4 and t[0] == "call" and isinstance(t[1], str) and t[1].endswith("::div_ceil") and len(t[2]) == 2 and _const_only(t[2][1], LEN):
+        d_ = ev(t[2][1], LEN, n)
+        if d_ and d_ > 0:
+            return -(-ev(t[2][0], LEN, n) // d_)
     if _is(t, "Ord::min", "cmp::min") and len(t[2]) == 2:
         return min(ev(t[2][0], LEN, n), ev(t[2][1], LEN, n))
     if _is(t, "Ord::max", "cmp::max") and len(t[2]) == 2:
